@@ -76,17 +76,15 @@ def cal_info(date: typ.Optional[dt.date] = None) -> version.V2CalendarInfo:
 
 def _ver_to_cal_info(vinfo: version.V2VersionInfo) -> version.V2CalendarInfo:
     defaults = cal_info(version.TODAY)
-    return version.V2CalendarInfo(
-        vinfo.year_y or defaults.year_y,
-        vinfo.year_g or defaults.year_g,
-        vinfo.quarter or defaults.quarter,
-        vinfo.month or defaults.month,
-        vinfo.dom or defaults.dom,
-        vinfo.doy or defaults.doy,
-        vinfo.week_w or defaults.week_w,
-        vinfo.week_u or defaults.week_u,
-        vinfo.week_v or defaults.week_v,
-    )
+
+    # NOTE: 0 is a valid value (week_w/week_u at the start of a year),
+    #   only fall back to the default if a field is missing.
+    kwargs = {}
+    for field in version.V2CalendarInfo._fields:
+        val = getattr(vinfo, field)
+        kwargs[field] = getattr(defaults, field) if val is None else val
+
+    return version.V2CalendarInfo(**kwargs)
 
 
 VALID_FIELD_KEYS = set(version.V2VersionInfo._fields) | {'version'}
